@@ -475,10 +475,11 @@ func (e *regRun) checkSnaps(when string) {
 }
 
 // request serves one request and returns the handler tags in start order; the trace must be an onion.
-func (e *regRun) request(method, path string) string {
+func (e *regRun) request(method, path string) (string, string) {
 	e.trace = nil
 	w := httptest.NewRecorder()
-	e.r.ServeHTTP(w, httptest.NewRequest(method, path, nil))
+	req := httptest.NewRequest(method, path, nil)
+	e.r.ServeHTTP(w, req)
 	var chain, stack []string
 	for _, ev := range e.trace {
 		if ev[0] == 'e' {
@@ -504,111 +505,161 @@ func (e *regRun) request(method, path string) string {
 	case code == 404 && !e.nfSet && !strings.Contains(w.Body.String(), "ok"):
 		chain = append(chain, fmt.Sprint(tag404))
 	}
-	if len(chain) == 0 {
-		return "-"
+	// the Allow list of a 405 answer, canonical (sorted, comma separated)
+	allow := ""
+	if isDefault405 || (e.naSet && e.opt405 && w.Header().Get("Allow") != "") {
+		ms := strings.Split(w.Header().Get("Allow"), ",")
+		for i := range ms {
+			ms[i] = strings.TrimSpace(ms[i])
+		}
+		sort.Strings(ms)
+		allow = strings.Join(ms, ",")
 	}
-	return strings.Join(chain, ",")
+	// how the router itself resolves the request (the function dispatch uses)
+	kind := "notfound"
+	if rt, _, allowed := e.r.QuickMatch(method, req.URL.Path); rt != nil {
+		kind = "served"
+	} else if len(allowed) > 0 {
+		kind = "notallowed"
+	}
+	if len(chain) == 0 {
+		return kind + " -", allow
+	}
+	return kind + " " + strings.Join(chain, ","), allow
 }
 
 func (regEngine) Run(ops []string) (ans []string, oracle []string) {
 	e := newRegRun(false)
 	for _, op := range ops {
 		f := strings.Fields(op)
-		a := func() (res string) {
-			defer func() {
-				if v := recover(); v != nil {
-					res = panicClass(v)
-					if f[0] == "run" {
-						e.dead = true
-					}
-				}
-			}()
-			if len(f) == 0 {
-				return "bad-op"
-			}
-			switch {
-			case f[0] == "new" && len(f) == 2:
-				e = newRegRun(f[1] == "1")
-				return "ok"
-			case f[0] == "buf" && len(f) == 3:
-				id, ok1 := parseInts(f[1])
-				tags, ok2 := parseInts(f[2])
-				if !ok1 || !ok2 || len(id) != 1 {
-					return "bad-op"
-				}
-				buf := make([]rux.HandlerFunc, len(tags))
-				for i, t := range tags {
-					buf[i] = e.mw(t)
-				}
-				e.bufs[id[0]] = buf
-				return "ok"
-			case f[0] == "run" && len(f) == 1:
-				lines := e.lines
-				e.lines = nil
-				if e.dead {
-					return "skipped"
-				}
-				toks := make([][]string, len(lines))
-				for i, l := range lines {
-					toks[i] = strings.Fields(l)
-				}
-				e.execBlock(toks, 0, true)
-				e.checkSnaps("after the program")
-				p, g, gl := e.r.VerifScope()
-				return fmt.Sprintf("ok %d ;; %s %d %d", e.nRoute, hx(p), g, gl)
-			case f[0] == "info" && len(f) == 2:
-				id, ok := parseInts(f[1])
-				if !ok || len(id) != 1 {
-					return "bad-op"
-				}
-				if e.dead {
-					return "skipped"
-				}
-				rt := e.routes[id[0]]
-				if rt == nil {
-					return "none"
-				}
-				e.checkSnaps("at info")
-				ms := "-"
-				if len(rt.Methods()) > 0 {
-					ms = strings.Join(rt.Methods(), ",")
-				}
-				return fmt.Sprintf("%s %s %s %s", hx(rt.Path()), hx(rt.Name()), ms, e.tagsOf(rt.Handlers()))
-			case f[0] == "serve" && len(f) == 3:
-				id, ok := parseInts(f[1])
-				if !ok || len(id) != 1 {
-					return "bad-op"
-				}
-				if e.dead {
-					return "skipped"
-				}
-				rt := e.routes[id[0]]
-				if rt == nil {
-					return "none"
-				}
-				return e.request(f[2], strings.ReplaceAll(rt.Path(), "{id}", "7"))
-			case f[0] == "miss" && len(f) == 1:
-				if e.dead {
-					return "skipped"
-				}
-				return e.request("GET", "/no/such/route")
-			case f[0] == "routes" && len(f) == 1:
-				if e.dead {
-					return "skipped"
-				}
-				return regTriples(e.r)
-			case regProgKw[f[0]]:
-				if !e.lineOK(f) {
-					return "bad-op"
-				}
-				e.lines = append(e.lines, op)
-				return "ok"
-			}
-			return "bad-op"
-		}()
-		ans = append(ans, a)
+		if len(f) == 2 && f[0] == "new" {
+			e = newRegRun(f[1] == "1")
+			ans = append(ans, "ok")
+			continue
+		}
+		ans = append(ans, e.step(op))
 	}
 	return ans, e.oracle
+}
+
+// step executes one op line (everything except `new`) on this router.
+func (e *regRun) step(op string) (res string) {
+	f := strings.Fields(op)
+	defer func() {
+		if v := recover(); v != nil {
+			res = panicClass(v)
+			if len(f) > 0 && f[0] == "run" {
+				e.dead = true
+			}
+		}
+	}()
+	if len(f) == 0 {
+		return "bad-op"
+	}
+	switch {
+	case f[0] == "buf" && len(f) == 3:
+		id, ok1 := parseInts(f[1])
+		tags, ok2 := parseInts(f[2])
+		if !ok1 || !ok2 || len(id) != 1 {
+			return "bad-op"
+		}
+		buf := make([]rux.HandlerFunc, len(tags))
+		for i, t := range tags {
+			buf[i] = e.mw(t)
+		}
+		e.bufs[id[0]] = buf
+		return "ok"
+	case f[0] == "run" && len(f) == 1:
+		lines := e.lines
+		e.lines = nil
+		if e.dead {
+			return "skipped"
+		}
+		toks := make([][]string, len(lines))
+		for i, l := range lines {
+			toks[i] = strings.Fields(l)
+		}
+		e.execBlock(toks, 0, true)
+		e.checkSnaps("after the program")
+		p, g, gl := e.r.VerifScope()
+		return fmt.Sprintf("ok %d ;; %s %d %d", e.nRoute, hx(p), g, gl)
+	case f[0] == "info" && len(f) == 2:
+		id, ok := parseInts(f[1])
+		if !ok || len(id) != 1 {
+			return "bad-op"
+		}
+		if e.dead {
+			return "skipped"
+		}
+		rt := e.routes[id[0]]
+		if rt == nil {
+			return "none"
+		}
+		e.checkSnaps("at info")
+		ms := "-"
+		if len(rt.Methods()) > 0 {
+			ms = strings.Join(rt.Methods(), ",")
+		}
+		return fmt.Sprintf("route %s %s %s %s", hx(rt.Path()), hx(rt.Name()), ms, e.tagsOf(rt.Handlers()))
+	case f[0] == "serve" && len(f) == 3:
+		id, ok := parseInts(f[1])
+		if !ok || len(id) != 1 {
+			return "bad-op"
+		}
+		if e.dead {
+			return "skipped"
+		}
+		rt := e.routes[id[0]]
+		if rt == nil {
+			return "none"
+		}
+		ch, _ := e.request(f[2], strings.ReplaceAll(rt.Path(), "{id}", "7"))
+		return ch
+	case f[0] == "miss" && len(f) == 1:
+		if e.dead {
+			return "skipped"
+		}
+		ch, _ := e.request("GET", "/no/such/route")
+		return ch
+	case f[0] == "probe" && len(f) == 3:
+		p, ok := unhx(f[2])
+		if !ok {
+			return "bad-op"
+		}
+		if e.dead {
+			return "skipped"
+		}
+		ch, allow := e.request(f[1], p)
+		if allow != "" {
+			return ch + " allow=" + allow
+		}
+		return ch
+	case f[0] == "routes" && len(f) == 1:
+		if e.dead {
+			return "skipped"
+		}
+		return "triples " + regTriples(e.r)
+	case f[0] == "named" && len(f) == 1:
+		if e.dead {
+			return "skipped"
+		}
+		var out []string
+		for n, rt := range e.r.NamedRoutes() {
+			out = append(out, hx(n)+"="+hx(rt.Path()))
+		}
+		if len(out) == 0 {
+			return "names -"
+		}
+		sort.Strings(out)
+		return "names " + strings.Join(out, " ")
+	case regProgKw[f[0]]:
+		if !e.lineOK(f) {
+			return "bad-op"
+		}
+		e.lines = append(e.lines, op)
+		return "ok"
+	}
+	return "bad-op"
 }
 
 // regTriples: Routes() as sorted, de-duplicated methods:path:name triples.
